@@ -67,6 +67,10 @@ pub trait MarkerKind: 'static {
     /// numeric value for SimpleMarker ids
     fn numeric(m: &Self::M) -> Option<u64>;
     fn explicit_string(n: u64) -> String;
+    /// an identifier that code might mistake for "no id" (the nil uuid); None if the kind has none
+    fn nil_id() -> Option<<Self::M as Marker>::Identifier> {
+        None
+    }
 }
 
 pub struct SimpleKind;
@@ -97,7 +101,14 @@ impl MarkerKind for UuidKind {
         format!("{}", m.uuid())
     }
     fn explicit(n: u64) -> specs::uuid::Uuid {
+        // one of the explicit ids is the all-zero uuid: a value like any other
+        if n == 3 {
+            return specs::uuid::Uuid::nil();
+        }
         specs::uuid::Uuid::from_u128(0xABCD_0000_0000_0000_0000_0000_0000_0000u128 + n as u128)
+    }
+    fn nil_id() -> Option<specs::uuid::Uuid> {
+        Some(specs::uuid::Uuid::nil())
     }
     fn numeric(_: &Self::M) -> Option<u64> {
         None
@@ -320,9 +331,19 @@ fn build_src<K: MarkerKind>(case: &SaveCase) -> Result<Src, Violation> {
     {
         let mut alloc = src.write_resource::<K::A>();
         let mut markers = src.write_storage::<K::M>();
+        let mut nil_used = case.shift % 2 == 0;
         for i in &marked_idx {
             if late.contains(i) {
                 continue;
+            }
+            if !nil_used {
+                nil_used = true;
+                if let Some(id) = K::nil_id() {
+                    // an explicitly chosen id (the nil uuid) instead of an allocated one
+                    let m = alloc.allocate(ents[*i], Some(id));
+                    markers.insert(ents[*i], m).unwrap();
+                    continue;
+                }
             }
             let r = alloc.mark(ents[*i], &mut markers);
             ensure!("C15", "mark-live", matches!(r, Some((_, true))), "marking the live unmarked {:?} did not allocate a marker", ents[*i]);
@@ -393,6 +414,16 @@ fn build_src<K: MarkerKind>(case: &SaveCase) -> Result<Src, Violation> {
             }
             if let Some(s) = &spec.late {
                 late.insert(ents[i], Late(s.clone())).unwrap();
+            }
+        }
+    }
+    // deletions that were only requested (Entities::delete, no maintain yet) do not take effect before the
+    // save: the entities are alive, joinable and must be saved like all others
+    if case.holes.len() >= 2 && case.holes[1] % 2 == 1 {
+        let e = src.entities();
+        for (i, ent) in ents.iter().enumerate() {
+            if i % 3 == 1 {
+                e.delete(*ent).unwrap();
             }
         }
     }
@@ -748,13 +779,67 @@ struct MergeFacts {
     created_by_load: u32,
 }
 
+thread_local! {
+    /// C20: while set, an unrelated third world does marker lookups between the operations of a merge
+    /// history; nothing the history observes may depend on that.
+    static NOISE: std::cell::Cell<bool> = std::cell::Cell::new(false);
+}
+
+/// Runs `f` with the unrelated-world activity switched on.
+pub fn with_noise<R>(f: impl FnOnce() -> R) -> R {
+    NOISE.with(|n| n.set(true));
+    let r = f();
+    NOISE.with(|n| n.set(false));
+    r
+}
+
+/// An unrelated world with eight marked entities; `poke` looks each of them up by marker.
+struct NoiseWorld<K: MarkerKind> {
+    world: World,
+    markers: Vec<K::M>,
+}
+
+impl<K: MarkerKind> NoiseWorld<K> {
+    fn new() -> Self {
+        let mut world = new_world::<K>();
+        // indices that differ from the history's worlds
+        let pad: Vec<Entity> = world.create_iter().take(5).collect();
+        let ents: Vec<Entity> = world.create_iter().take(8).collect();
+        let _ = pad;
+        let mut markers = vec![];
+        {
+            let mut alloc = world.write_resource::<K::A>();
+            let mut st = world.write_storage::<K::M>();
+            for e in &ents {
+                if let Some((m, _)) = alloc.mark(*e, &mut st) {
+                    markers.push(m.clone());
+                }
+            }
+        }
+        NoiseWorld { world, markers }
+    }
+
+    fn poke(&mut self) {
+        let ents = self.world.entities();
+        let mut alloc = self.world.write_resource::<K::A>();
+        let mut st = self.world.write_storage::<K::M>();
+        for m in &self.markers {
+            let _ = alloc.retrieve_entity(m.clone(), &mut st, &ents);
+        }
+    }
+}
+
 fn c15_one<K: MarkerKind>(case: &MergeCase, mut transcript: Option<&mut Vec<String>>) -> Result<MergeFacts, Violation> {
+    let mut noise: Option<NoiseWorld<K>> = if NOISE.with(|n| n.get()) { Some(NoiseWorld::new()) } else { None };
     let mut ws: [MW<K>; 2] = [MW::new(), MW::new()];
     let mut bufs: Vec<(Vec<u8>, Vec<Record>)> = vec![];
     let mut loaded: HashSet<(usize, bool)> = HashSet::new();
     let mut facts = MergeFacts::default();
     let mut deleted_marked = [false, false];
     for (n, op) in case.ops.iter().enumerate() {
+        if let Some(nw) = noise.as_mut() {
+            nw.poke();
+        }
         let step = format!("step {} {:?}", n, op);
         match op {
             MOp::Create { world, marked, plain, late, refto } => {
@@ -929,6 +1014,8 @@ fn c15_one<K: MarkerKind>(case: &MergeCase, mut transcript: Option<&mut Vec<Stri
                     alloc.allocate(e, Some(K::explicit(num)))
                 };
                 let id = K::id_string(&m);
+                ensure!("C15", "explicit-id-not-honoured", id == K::explicit_string(num),
+                    "{}: allocate(entity, Some({})) returned a marker with id {}", step, K::explicit_string(num), id);
                 if w.live_marked().contains_key(&id) {
                     // cannot happen for ids above the maximum; keep the harness honest
                     w.world.delete_entity(e).unwrap();
